@@ -37,7 +37,7 @@ func SeencheckItem(item *models.Item) error {
 			}
 
 			newURL := gocrawlhq.URL{
-				Value: items[i].GetURL().Raw,
+				Value: items[i].GetURL().String(),
 				Type:  source,
 			}
 
